@@ -1,7 +1,10 @@
 """C01 composition: dump a live py4hw design as the `list prim` / `list reginst` terms of coq/Model/C01Prim.v (net ids resolved against the
 elaborated flat design INSIDE Coq, by flat name), so that `match_flat prims regs clk ins f = true` — the decidable hypothesis of
-Properties/C01Compose.v — can be decided by vm_compute for that design.  A design is covered when every leaf of the live simulator is
-one of the modelled primitive classes or a Reg, and every inlined instance of the Verilog generator is such a leaf.
+Properties/C01Compose.v — can be decided by vm_compute for that design.  A design is covered when every instance the Verilog
+generator prints (one assign per inlined block, n assigns per Bits block, one body per Reg) is a modelled class and the simulator leaves are
+exactly those instances or lie below a MACRO block (Xor2, Nand2, Nor2, And, Or, Nor, Equal, EqualConstant: one assign in the text, a gate
+sub-network in the simulator; the kernel leaf is C08's model of that sub-network).  The Coq terms are `list citem` (IPrim / IBits) and
+`list reginst`; the decided hypothesis is `match_items` (Properties/C01Compose.v: C01_vsim_compose_items[_noclock]).
 
     cover(top)                 -> Cover (prims in Simulator.propagatables order, regs in clockables order) or raises NotCovered
     check(tag, cases)          -> per case ('ok', n_prims, n_regs) | ('nomatch', failing conjuncts) | ('notcovered', why) | ('elab', err) | ('parse', msg)
